@@ -2,8 +2,11 @@
 //! real sancane/precis crates (path dependencies on the repository's working tree).
 
 mod api;
+mod c01;
+mod c08;
 mod l1;
 mod oracle;
+mod record;
 mod replay;
 mod replay_str;
 mod universe;
@@ -18,6 +21,9 @@ fn main() {
     match args[1].as_str() {
         "l1" => l1::main(rest),
         "replay" => replay::main(rest),
+        "record" => record::main(rest),
+        "c08sweep" => c08::main(rest),
+        "c01sweep" => c01::main(rest),
         "universe" => universe::main(rest),
         "version" => println!("{:?} {:?}", precis_core::UNICODE_VERSION, precis_profiles::UNICODE_VERSION),
         other => util::tool_error(&format!("unknown subcommand {}", other)),
